@@ -39,7 +39,9 @@ OUT = V / "lean" / "GscribModel" / "Gen" / "BuilderSrc.lean"
 METHODS = ["write", "set_time_units", "set_temperature_units", "set_plane", "set_direction", "set_resolution", "set_distance_mode",
            "set_extrusion_mode", "set_feed_mode", "set_feed_rate", "set_tool_power", "set_fan_speed", "set_bed_temperature",
            "set_hotend_temperature", "set_chamber_temperature", "sleep", "tool_on", "tool_off", "power_on", "power_off",
-           "tool_change", "coolant_on", "coolant_off", "query"]
+           "tool_change", "coolant_on", "coolant_off", "query", "_track_move_params", "_update_axes"]
+# `ParamsDict` arguments: the finite words of a move (`_track_move_params` reads F and S) / the whole dictionary incl. X, Y, Z
+PARAM_TYPES = {("_track_move_params", "params"): "Words", ("_update_axes", "params"): "Params", ("_update_axes", "axes"): "Pt"}
 ERRORS = {"ValueError": "valueError", "ToolStateError": "toolState", "CoolantStateError": "coolantState"}
 
 
@@ -101,7 +103,8 @@ class T:
 
     @staticmethod
     def lean_ty(ty):
-        return f"(Arg {ty[4:]})" if ty.startswith("Arg:") else {"Words": "(List (String × Rat))", "Params": "(List (String × Val))"}.get(ty, ty)
+        return f"(Arg {ty[4:]})" if ty.startswith("Arg:") else {"Words": "(List (String × Rat))", "VParams": "(List (String × Val))", "Params": "Builder.Params",
+                                                                "OQ": "OQ"}.get(ty, ty)
 
     @staticmethod
     def rat(v):
@@ -126,8 +129,15 @@ class T:
             return '""', "String"
         if isinstance(e, ast.Name):
             if e.id in env:
+                if env[e.id] == "Rat" and want == "Val":
+                    return f"(Val.fin {e.id})", "Val"
                 return e.id, env[e.id]
             fail(e, f"unknown name {e.id}")
+        if isinstance(e, ast.Attribute) and ast.unparse(e) == "self._current_params":
+            return f"{env['$self']}._current_params", "Params"
+        if isinstance(e, ast.Call) and isinstance(e.func, ast.Attribute) and e.func.attr == "get" and isinstance(e.func.value, ast.Name) \
+                and env.get(e.func.value.id) == "Words" and len(e.args) == 1 and isinstance(e.args[0], ast.Constant):
+            return f'(lookupQ {e.func.value.id} "{e.args[0].value}")', "OQ"
         if isinstance(e, ast.Attribute) and isinstance(e.value, ast.Name) and e.value.id in self.enums:
             if e.attr not in [m for m, _ in self.enums[e.value.id]]:
                 fail(e, f"{e.value.id} has no member {e.attr}")
@@ -218,6 +228,18 @@ class T:
             return f"{ind}({cur}, some .{ERRORS[name]})\n"
         if isinstance(st, ast.Return) and st.value is None:
             return f"{ind}({cur}, none)\n"
+        if isinstance(st, ast.If) and not st.orelse and isinstance(st.test, ast.Compare) and len(st.test.ops) == 1 \
+                and isinstance(st.test.ops[0], ast.IsNot) and isinstance(st.test.left, ast.Name) and env.get(st.test.left.id) == "OQ" \
+                and isinstance(st.test.comparators[0], ast.Constant) and st.test.comparators[0].value is None:
+            x = st.test.left.id
+            envs = dict(env, **{x: "Rat"})
+            # inside the branch the name denotes the number; afterwards it is the optional value again
+            return (f"{ind}match {x} with\n{ind}| some {x}_v =>\n{ind}  let {x} : Rat := {x}_v\n"
+                    + self.block(list(st.body) + [("$rebind", x)] + rest, envs, depth + 1)
+                    + f"{ind}| none =>\n" + self.block(rest, env, depth + 1))
+        if isinstance(st, tuple) and st[0] == "$rebind":
+            x = st[1]
+            return f"{ind}let {x} : OQ := some {x}\n" + self.block(rest, dict(env, **{x: "OQ"}), depth)
         if isinstance(st, ast.If):
             c, cty = self.expr(st.test, env, "Bool")
             if cty != "Bool":
@@ -248,6 +270,13 @@ class T:
                 return (f"{ind}match GState.{c.func.attr} {cur}.state{args} with\n"
                         f"{ind}| (g, some e) => ({{ {cur} with state := g }}, some e)\n"
                         f"{ind}| (g, none) =>\n{ind}  let {n} : BSt := {{ {cur} with state := g }}\n" + self.block(rest, env2, depth + 1))
+            if src == "super()._update_axes" and len(c.args) == 2:
+                a, aty = self.expr(c.args[0], env)
+                p_, pty = self.expr(c.args[1], env)
+                if aty != "Pt" or pty != "Params":
+                    fail(c, f"super()._update_axes({aty}, {pty})")
+                n = self.fresh(env)
+                return f"{ind}let {n} : BSt := coreUpdateAxes {cur} {a} {p_}\n" + self.block(rest, dict(env, **{"$self": n}), depth)
             if src in ("self.write", "super().write") and len(c.args) == 1:
                 t, ty = self.expr(c.args[0], env)
                 if ty == "Words":
@@ -299,7 +328,7 @@ class T:
             if isinstance(v, ast.Call) and ast.unparse(v.func) == "self._get_statement" and 1 <= len(v.args) <= 2 and not v.keywords:
                 cls, mem = self.enum_ref(v.args[0], env)
                 if len(v.args) == 2:
-                    if isinstance(v.args[1], ast.Name) and env.get(v.args[1].id) == "Params":
+                    if isinstance(v.args[1], ast.Name) and env.get(v.args[1].id) == "VParams":
                         ps = v.args[1].id
                     else:
                         ps = self.params_dict(v.args[1], env)
@@ -310,7 +339,7 @@ class T:
                         + self.block(rest, env2, depth + 1))
             # x = {...}
             if isinstance(v, ast.Dict):
-                env2 = dict(env, **{name: "Params"})
+                env2 = dict(env, **{name: "VParams"})
                 return f"{ind}let {name} : List (String × Val) := {self.params_dict(v, env)}\n" + self.block(rest, env2, depth)
             # x = f"{a} {b}"   (statement text assembled from pieces)
             if isinstance(v, ast.JoinedStr):
@@ -345,7 +374,7 @@ class T:
                 return self.block(rest, dict(env, **{name: "Layout"}), depth)
             # plain expression
             t, ty = self.expr(v, env)
-            if ty in self.enums or ty in ("Val", "Int", "Bool"):
+            if ty in self.enums or ty in ("Val", "Int", "Bool", "OQ"):
                 env2 = dict(env, **{name: ty})
                 return f"{ind}let {name} : {self.lean_ty(ty)} := {t}\n" + self.block(rest, env2, depth)
             fail(st, f"assignment {ast.unparse(st)[:60]}")
@@ -365,6 +394,8 @@ class T:
         for a in m.args.args[1:]:
             if name == "write" and a.arg == "statement":
                 ty = "SStmt"
+            elif (name, a.arg) in PARAM_TYPES:
+                ty = PARAM_TYPES[(name, a.arg)]
             else:
                 ty = self.param_type(a.annotation, m)
             env[a.arg] = ty
@@ -389,10 +420,14 @@ class T:
             out.append(f"def {en}.memberName : {en} → String")
             out += [f"  | .{m} => \"{m}\"" for m, _ in ms]
             out.append("")
-        out.append("/-- the builder: its state object, `GCodeCore._distance_mode`, and what has been handed to `GCodeCore.write` -/")
-        out.append("structure BSt where\n  state : GState\n  _distance_mode : DistanceMode\n  out : List SStmt\nderiving DecidableEq, Repr\n")
+        out.append("/-- the builder: its state object, `GCodeCore._distance_mode` / `_current_axes` / `_current_params`, and what has been handed to `GCodeCore.write` -/")
+        out.append("structure BSt where\n  state : GState\n  _distance_mode : DistanceMode\n  _current_axes : Pt\n  _current_params : Builder.Params\n"
+                   "  out : List SStmt\nderiving DecidableEq, Repr\n")
         out.append("/-- `GCodeCore.write(statement)`: the statement goes to the writers -/")
         out.append("def coreWrite (s : BSt) (st : SStmt) : BSt := { s with out := s.out ++ [st] }\n")
+        out.append("/-- `GCodeCore._update_axes(axes, params)`: `_current_params.update(params)`, then `_current_axes = axes` -/")
+        out.append("def coreUpdateAxes (s : BSt) (axes : Pt) (params : Builder.Params) : BSt :=\n"
+                   "  { s with _current_params := s._current_params.update params, _current_axes := axes }\n")
         out += meths
         out.append("def translated : List String := [" + ", ".join(f'"{n}"' for n in METHODS) + "]\n")
         out.append("end GscribModel.Gen.BuilderSrc")
